@@ -5,10 +5,14 @@ correspondence : Model/Composite.lean at K = Rat (driver command comp.pixel, one
 search         : the real compositor vs comp_common.spec_composite - a NumPy float64 implementation of the published
                  formulas (Porter-Duff / PDF 1.7 11.3-11.4, Photoshop's factors, clipping groups) that recurses over
                  the document RECIPE; independent of the Lean model and of the Compositor class
+spec tie       : every request sent to comp.pixel is also sent to comp.spec (Model/CompositeSpec.lean, the published model as
+                 a Lean denotation, proved to be refined by the code model: compositor_refines_spec_doc); the two answers must
+                 agree EXACTLY (rationals): same shape, same alpha, colour * alpha = premultiplied group colour
 """
 from __future__ import annotations
 
 import glob
+from fractions import Fraction
 import hashlib
 import json
 import os
@@ -18,6 +22,7 @@ import numpy as np
 import core
 import comp_common as cc
 
+NONSEP = {"HUE", "SATURATION", "COLOR", "LUMINOSITY", "DARKER_COLOR", "LIGHTER_COLOR"}
 FIXTURE_AREA = 1100 * 1100
 FIXTURE_PIXELS = 160
 NAMED_FIXTURES = ["clipping-mask.psd", "clipping-mask2.psd", "group.psd", "masks.psd", "masks2.psd", "masks3.psd"]
@@ -136,6 +141,40 @@ def report_failure(ctx, case, res, prop="C11"):
 
 
 # ------------------------------------------------------------------------------------------
+# comp.spec (the published model in Lean) against comp.pixel (the code model), exact
+# ------------------------------------------------------------------------------------------
+def spec_answers(ctx, reqs):
+    return ctx.driver().batch([("comp.spec", *q[1:]) for q in reqs]) if reqs else []
+
+
+def spec_tie(pixel_ans, spec_ans, st):
+    """None, or what differs between the answers of comp.pixel and comp.spec to the same requests
+    (what compositor_refines_spec_doc says cannot differ)"""
+    for k, (a, b) in enumerate(zip(pixel_ans, spec_ans)):
+        st["spec_tie"] = st.get("spec_tie", 0) + 1
+        if a[0] != "ok" or b[0] != "ok":
+            if a != b:
+                return f"request {k}: comp.pixel answers {a}, comp.spec answers {b}"
+            continue
+        ca, sa, aa = a[1].split(" ")
+        pb, sb, ab = b[1].split(" ")
+        if sa != sb:
+            return f"request {k}: shape {sa} (code model) != {sb} (published model)"
+        if aa != ab:
+            return f"request {k}: alpha {aa} (code model) != {ab} (published model)"
+        al = Fraction(aa)
+        cs, ps = ca.split(","), pb.split(",")
+        if len(cs) != len(ps):
+            return f"request {k}: {len(cs)} channels != {len(ps)}"
+        for i, (c, pm) in enumerate(zip(cs, ps)):
+            if Fraction(c) * al != Fraction(pm):
+                return f"request {k}: channel {i}: colour*alpha = {Fraction(c) * al} (code model) != {pm} (published model)"
+        if al != 0:
+            st["spec_tie_alpha_pos"] = st.get("spec_tie_alpha_pos", 0) + 1
+    return None
+
+
+# ------------------------------------------------------------------------------------------
 # one batch of cases: real + oracle in the pool, model through the driver
 # ------------------------------------------------------------------------------------------
 def process(ctx, cases, st, label, prop="C11", model=True):
@@ -148,6 +187,7 @@ def process(ctx, cases, st, label, prop="C11", model=True):
         else:
             spans.append(None)
     answers = ctx.driver().batch(reqs) if reqs else []
+    sanswers = spec_answers(ctx, reqs) if model else []
     failing = []
     for c, r, sp in zip(cases, results, spans):
         doc = c["doc"]
@@ -188,6 +228,18 @@ def process(ctx, cases, st, label, prop="C11", model=True):
             ctx.hist("outcome", "no-oracle(non-separable on CMYK)")
         if sp is not None:
             ans = answers[sp[0]:sp[0] + sp[1]]
+            if sanswers:
+                tie = spec_tie(ans, sanswers[sp[0]:sp[0] + sp[1]], st)
+                if tie is not None and doc["mode"] == "CMYK" and set(cc.blend_modes(doc)) & NONSEP:
+                    # the CMYK wrapper of the non-separable modes leaves [0,1] (known findings of C12), so the hypothesis
+                    # BOk of compositor_refines_spec fails and the compositor's _clip is active: not covered by the theorem
+                    ctx.hist("spec_tie", "differs-outside-hypothesis(CMYK non-separable: blend value outside [0,1])")
+                elif tie is not None:
+                    ctx.disagree(f"published model (comp.spec) != code model (comp.pixel) ({label}, {c.get('variant')}): {tie}",
+                                 case_json(c))
+                    ctx.hist("spec_tie", "disagree")
+                else:
+                    ctx.hist("spec_tie", "agree")
             m = cc.parse_answers(ans, r["pixels"], r["V"], r["nch"])
             ctx.corr_cases += len(ans)
             if isinstance(m, str):
@@ -253,7 +305,13 @@ def fixtures(ctx, st):
         allpx = [(x, y) for y in range(V[1], V[3]) for x in range(V[0], V[2])]
         pixels = allpx if len(allpx) <= FIXTURE_PIXELS else ctx.rng.sample(allpx, FIXTURE_PIXELS)
         pixels, reqs = xd.requests(V, pixels=pixels)
-        m = cc.parse_answers(ctx.driver().batch(reqs), pixels, V, xd.nch)
+        fans = ctx.driver().batch(reqs)
+        tie = spec_tie(fans, spec_answers(ctx, reqs), st)
+        if tie is not None and psd.color_mode.name == "CMYK":
+            ctx.hist("spec_tie", "differs-outside-hypothesis(CMYK fixture)")
+        elif tie is not None:
+            ctx.disagree(f"published model (comp.spec) != code model (comp.pixel) on fixture {rel}: {tie}", {"fixture": rel})
+        m = cc.parse_answers(fans, pixels, V, xd.nch)
         ctx.corr_cases += len(reqs)
         ctx.count(("fixture", rel), n=len(reqs))
         if isinstance(m, str):
@@ -307,6 +365,8 @@ def run(ctx: core.Run):
     ctx.extra["max_abs_diff_model_vs_impl"] = {"alpha_shape": st["corr_da"], "premultiplied_colour": st["corr_dc"]}
     ctx.extra["max_abs_diff_impl_vs_published"] = {"alpha_shape": st["spec_da"], "premultiplied_colour": st["spec_dc"]}
     ctx.extra["pixels_next_to_a_blend_jump_or_steep_slope"] = {"pixels": st["unstable_px"], "of": st["px"]}
+    ctx.extra["spec_tie_requests_comp_spec_equals_comp_pixel_exactly"] = {
+        "requests": st.get("spec_tie", 0), "with_nonzero_alpha": st.get("spec_tie_alpha_pos", 0)}
     ctx.extra["tolerances"] = {"shape_alpha": cc.TOL_ALPHA, "premultiplied_colour": cc.TOL_COLOR, "alpha_min_for_colour": cc.ALPHA_MIN,
                                "stability_probe": {"delta": cc.DELTA_STAB, "limit": cc.STAB_LIMIT}}
     ctx.rule = (
@@ -322,6 +382,11 @@ def run(ctx: core.Run):
         "Model/Composite.lean: hand transliteration of composite/__init__.py (Compositor, composite, paste, _intersect) as a per-pixel "
         "state machine over Rat; tied by this run's correspondence check on every pixel of every generated document",
         "Model/CompositeEval.lean: the evaluator the driver runs, PROVED equal to the model (evaluator_is_model)",
+        "Model/CompositeSpec.lean: the published model (Porter-Duff / PDF 1.7 11.3.6, 11.4.4-11.4.8, Photoshop's factors, clipping "
+        "groups) as a Lean denotation of the same layer tree in premultiplied form, hand-transcribed; the code model is PROVED to refine "
+        "it (compositor_refines_spec*), its evaluator comp.spec is PROVED equal to it (spec_evaluator_is_spec) and is compared exactly "
+        "with comp.pixel on every correspondence request of this run (a difference on a CMYK document that uses a non-separable mode "
+        "is counted, not reported: there the blend table leaves [0,1] - known findings of C12 - and the theorem's hypothesis BOk fails)",
         "Model/Blend.lean (C12) instantiates the blend table",
         "harness/comp_common.py: extraction of the per-pixel tree through the public getters; the float64 oracle of the published model",
         "harness/pixdoc.py builds documents from low-level records; they are serialised and re-read by the library before use",
@@ -371,8 +436,17 @@ NOTES = [
     "opacity, for all 0 <= alpha_s <= f_s <= 1), normal_is_source_over (Porter-Duff over), flat_stack_is_porter_duff (any stack length), "
     "apply_source_knockout_eq_pdf (the knockout step), state_in_range (all colours, shapes, alphas in [0,1], alpha = Union(alpha_0, alpha_g), "
     "alpha_g <= shape_g through groups, masks, clip runs, knockout), evaluator_is_model (the driver's evaluator = compositeDoc)",
-    "stated in DESIGN, not proved: compositor_refines_spec for whole trees against a Lean denotation of the published group model; the "
-    "published model for trees is instead the float64 oracle of the harness (second oracle) and the step theorems above",
+    "proved (Props/C11.lean): compositor_refines_spec / _list / _clip_run / _doc - the code model (applyNode ...) refines the published "
+    "model written independently in premultiplied form without clamp or guarded division (Model/CompositeSpec.lean: specNode ...) on whole "
+    "trees: leaves, masks, opacity / fill, nested isolated and pass-through groups with backdrop removal, clip runs, knockout elements and "
+    "groups; hypotheses: blend table keeps [0,1] (BOk), stored values in [0,1] (nodeOk), state invariant Inv and the relation Rel "
+    "(equal shape / alpha bookkeeping, spec colour = code colour * alpha); result: equal shape and alpha, colour * alpha = published "
+    "premultiplied group colour (so equal colour wherever alpha != 0). group_result_unclipped: 0 <= C*a - (1-a_g)*a_0*C_0 <= a_g through "
+    "every tree incl. knockout steps, so the _clip of Compositor.color and the 0/0 fallback of _divide are inert",
+    "knockout group alpha: the spec uses a_g' = (1-f_s)*a_g + (f_s-a_s)*a_0 + a_s (the code's formula and the float64 oracle's); the "
+    "specialised formula of PDF 1.7 11.4.6 is recalled as (1-f_s)*a_g + a_s - the two differ by (f_s-a_s)*a_0, i.e. only for a knockout "
+    "element with opacity < 1 (or a mask density < 1) over a backdrop with alpha > 0 inside a NON-isolated group or at document level with "
+    "a backdrop; not checked against the text of the standard",
     "correspondence-only: float32 vs exact arithmetic, np.sqrt, everything the extraction reads through public getters "
     "(layer.numpy, bbox, mask, tagged blocks, clip_layers, _has_clip_target)",
 ]
